@@ -55,6 +55,7 @@ type c12Spec struct {
 	Custom    *c12Custom `json:"custom,omitempty"`
 	Mode      string     `json:"mode"`                   // production | testing
 	Prior     int        `json:"prior_panics,omitempty"` // Panic calls issued (and recovered) on the same logger before the call of the cell
+	Argv      string     `json:"extra_argv,omitempty"`   // one more command-line argument of the process (an application flag that merely looks like a test flag)
 	Dir       string     `json:"dir,omitempty"`
 }
 
@@ -63,7 +64,7 @@ func (s c12Spec) canon() string {
 	if s.Custom != nil {
 		c = fmt.Sprintf("%d/%d", s.Custom.V, s.Custom.Treat)
 	}
-	return fmt.Sprintf("%s.%s sev=%d L=%d ni=%v ia=%v %s d=%d %s c=%s p=%d", s.Recv, s.Name, s.Sev, s.Level, s.NoInt, s.IntAlways, s.Format, s.Dests, s.Mode, c, s.Prior)
+	return fmt.Sprintf("%s.%s sev=%d L=%d ni=%v ia=%v %s d=%d %s c=%s p=%d", s.Recv, s.Name, s.Sev, s.Level, s.NoInt, s.IntAlways, s.Format, s.Dests, s.Mode, c, s.Prior) + " " + s.Argv
 }
 
 // what the parent saw
@@ -257,6 +258,9 @@ func c12RunCell(bins c12Bins, sp c12Spec) c12Obs {
 		cmd = exec.CommandContext(ctx, bins.test, "-test.run=^$", "c12child", string(js))
 	} else {
 		cmd = exec.CommandContext(ctx, bins.prod, "c12child", string(js))
+	}
+	if sp.Argv != "" {
+		cmd.Args = append(cmd.Args, sp.Argv)
 	}
 	var stderr bytes.Buffer
 	cmd.Stderr = &stderr
@@ -653,6 +657,9 @@ func runC12(r *Run) {
 		}
 		cells[i].Dests = 1 + r.R.Intn(2)
 		cells[i].Prior = i % 3
+		if cells[i].Mode == "production" && i%4 == 1 { // the application's own flags are not go test's
+			cells[i].Argv = []string{"-bench=none", "-benchmark-mode", "-testing", "-test"}[i/4%4]
+		}
 		cells[i].Msg = fmt.Sprintf("c12 message %d of the cell", i)
 		cells[i].Dir = filepath.Join(r.Out, "cells", strconv.Itoa(i))
 	}
